@@ -20,7 +20,7 @@ let bit b = if b then "1" else "0"
 let parse_event (op : string) : G.event option =
   let f = Array.of_list (String.split_on_char '.' op) in
   let len = Array.length f in
-  let deny = len > 3 in
+  let deny = len > 3 && f.(3) = "deny" in
   try
     Some (match f.(0) with
       | "rp" -> G.ERtmpPub (n_of f.(1), n_of f.(2), deny)
